@@ -77,7 +77,13 @@ def _case(draw, tier):
     # an emitting gate with a waiter
     if prob(draw, 0.3):
         t = draw(st.sampled_from([x["name"] for x in topo]))
-        nodes.append({"k": "ifelse", "name": "gsig", "params": [], "defaults": {}, "t": t, "f": "END", "table": [True], "default_open": True, "emit": ["gs"]})
+        if draw(st.booleans()):
+            nodes.append({"k": "ifelse", "name": "gsig", "params": [], "defaults": {}, "t": t, "f": "END", "table": [True], "default_open": True, "emit": ["gs"]})
+        else:
+            # a multi-way gate whose decision may be None (no target, no fallback) or END: it has still completed, so its signal is produced
+            nodes.append({"k": "func", "name": "gtarget", "params": [], "defaults": {}, "outs": []})
+            nodes.append({"k": "route", "name": "gsig", "params": [], "defaults": {}, "targets": ["gtarget", "END"], "fallback": None, "multi": False,
+                          "table": [draw(st.sampled_from([None, None, "gtarget", "END"]))], "default_open": True, "emit": ["gs"]})
         cands = [x for x in topo if x["name"] != t]
         if cands:
             w = draw(st.sampled_from(cands))
